@@ -224,8 +224,10 @@ static int URI_FUNC(RemoveBaseUriImpl)(URI_TYPE(Uri) * dest,
 	/* [22/50]	         while (first(A.path) == first(Base.path)) do */
 							while ((sourceSeg != NULL) && (baseSeg != NULL)
 									&& !URI_FUNC(CompareRange)(&sourceSeg->text, &baseSeg->text)
-									&& !((sourceSeg->text.first == sourceSeg->text.afterLast)
-										&& ((sourceSeg->next == NULL) != (baseSeg->next == NULL)))) {
+									/* The last segment of one path must not be matched against
+									 * a non-last segment of the other: resolution replaces the
+									 * last base segment and keeps all the others */
+									&& !((sourceSeg->next == NULL) != (baseSeg->next == NULL))) {
 	/* [23/50]	            A.path++; */
 								sourceSeg = sourceSeg->next;
 	/* [24/50]	            Base.path++; */
